@@ -21,7 +21,7 @@ func init() {
 			"else by a documented residual entry; explicit panics, Must* calls, unchecked type assertions and integer divisions are listed and must be absent. R2 (NIL): nil-able pointer fields are dereferenced only under a nil guard, through nil-safe methods, " +
 			"or under an establishing contract. R3: every loop is a range, a counted loop or has a declared variant that is checked structurally; no recursion. R4: blank and comment lines return (nil, nil) before any constructor runs; the scanner accepts a line only " +
 			"for rule != nil, err == nil and not ignored. R5: constructors store the given text and list id. R6: the lazy pattern compile uses the error-returning compile and marks the rule invalid. R7: the scanner reads complete lines (no buffer-size truncation).",
-		Trusted: []string{"cmd/compile's prove pass (sound static analyser) for 'compiler' verdicts", "library post-conditions table (strings.Index*, io.Reader.Read, HasPrefix/HasSuffix length facts)", "regexp.Compile returns a non-nil *Regexp iff err == nil; RE2 matching is linear and cannot crash"},
+		Trusted:     []string{"cmd/compile's prove pass (sound static analyser) for 'compiler' verdicts", "library post-conditions table (strings.Index*, io.Reader.Read, HasPrefix/HasSuffix length facts)", "regexp.Compile returns a non-nil *Regexp iff err == nil; RE2 matching is linear and cannot crash"},
 		Assumptions: []string{"'inserting noise lines leaves results equal' is derived from R4 + offset accounting (C11.R2), not observed", "stack depth and time are library concerns"},
 	})
 }
@@ -453,8 +453,8 @@ func checkNil(c *Ctx, scope []*ssa.Function) {
 	}
 	// establishing contracts: (function, field) -> reason
 	contracts := map[string]string{
-		"matchException|NetworkRule.DNSRewrite":          "both arguments carry a rewrite: the exception is checked by the caller (exc.DNSRewrite == nil returns early) and the list elements come from DNSRewritesAll, which keeps only rules with DNSRewrite != nil (verified below)",
-		"removeMatchingException$1|NetworkRule.DNSRewrite": "closure passed to DeleteFunc inside the guard",
+		"matchException|NetworkRule.DNSRewrite":                                   "both arguments carry a rewrite: the exception is checked by the caller (exc.DNSRewrite == nil returns early) and the list elements come from DNSRewritesAll, which keeps only rules with DNSRewrite != nil (verified below)",
+		"removeMatchingException$1|NetworkRule.DNSRewrite":                        "closure passed to DeleteFunc inside the guard",
 		"(*filterlist.RuleStorageScanner).Scan|RuleStorageScanner.currentScanner": "elements of Scanners are the non-nil results of RuleList.NewScanner collected by NewRuleStorageScanner; currentScanner is nil or one of them",
 	}
 	for _, fn := range scope {
@@ -559,10 +559,10 @@ func checkNil(c *Ctx, scope []*ssa.Function) {
 // checkTermination implements R3.
 func checkTermination(c *Ctx, scope []*ssa.Function) {
 	variants := map[string]string{
-		"(*filterlist.RuleScanner).Scan":         "each iteration consumes one line from the reader (readNextLine) and the loop returns on its error; the reader is finite",
-		"(*filterlist.RuleScanner).readNextLine": "each iteration reads from the buffered reader and returns on data or error",
-		"filterlist.readLine":                    "each iteration reads from the reader and returns on a newline, on no data or on error",
-		"(*filterlist.RuleStorageScanner).Scan":  "the scanner index strictly increases and the loop returns when it reaches the last scanner",
+		"(*filterlist.RuleScanner).Scan":              "each iteration consumes one line from the reader (readNextLine) and the loop returns on its error; the reader is finite",
+		"(*filterlist.RuleScanner).readNextLine":      "each iteration reads from the buffered reader and returns on data or error",
+		"filterlist.readLine":                         "each iteration reads from the reader and returns on a newline, on no data or on error",
+		"(*filterlist.RuleStorageScanner).Scan":       "the scanner index strictly increases and the loop returns when it reaches the last scanner",
 		"(*urlfilter.NetworkEngine).NewNetworkEngine": "",
 	}
 	inScope := map[*ssa.Function]bool{}
